@@ -546,6 +546,16 @@ def pool_check(mod, tier, seed):
         res.violations.append(("harness does not build against the working tree", o[-200:], p, True))
         return common.finish(res, mod, [], 0, 0, "harness build failed")
     if not oracle_ok:
+        # keep searching with the last known good copy of the failed tables (see common.restore_good_gen)
+        with common.Lock():
+            stale = common.restore_good_gen()
+            if stale:
+                ook, _, _, _ = common.lake_build([common.ORACLE])
+                oracle_ok = ook and os.path.exists(common.oracle_path())
+                if oracle_ok:
+                    res.add_obligation("oracle rebuilt on the last known good copy of " + ",".join(stale) +
+                                       " to search for a failing input (model side stale)", False, "tie", "")
+    if not oracle_ok:
         p = common.write_replay(mod.ID, "model-build", {"obligation": "model/oracle build", "broken": broken, "output": bout[-3000:]})
         res.violations.append(("model, regenerated tables or facts no longer compile: " + "; ".join(broken_names)[:300], "", p, True))
         return common.finish(res, mod, [], 0, 0, "oracle build failed")
